@@ -67,6 +67,11 @@ LEVEL_TEXT = ("Seeded broad histories (incl. failing calls, comparison "
               "plans on the ASan+UBSan build with assertions. Sampling.")
 
 OBJ_FAMS = [f for f in FAMILIES if f != "fs" and (f[0] == "O" or f[1] == "O")]
+# read-only operations (they cannot leave the container half changed)
+LOAD_FAIL_OPS = ("get", "getd", "getitem", "in", "has_key", "len", "bool",
+                 "iter", "keys", "values", "items", "minKey", "maxKey",
+                 "range", "mod", "binop", "isdisjoint", "pickle", "copy",
+                 "sgetitem", "seqopen")
 
 
 def plan(rng, tier):
@@ -165,7 +170,12 @@ def plan(rng, tier):
             if rng.random() < 0.3:
                 g.phase = rng.choice(["grow", "mixed", "shrink"])
             op = g.op()
-        if hk and rng.random() < 0.12:
+        if cfg["stored"] and op[0] in LOAD_FAIL_OPS and rng.random() < 0.3:
+            # the storage fails to deliver a node in the middle of a
+            # read-only operation (everything evicted right before it)
+            op = ["@loadfail", rng.randint(1, 6),
+                  rng.choice(["err", "poskey"]), op]
+        elif hk and rng.random() < 0.12:
             op = ["@raise", rng.randrange(1 << 16), op]
         elif hk and cfg["stored"] and rng.random() < 0.25:
             # eviction requested while a key comparison of this operation is
@@ -202,6 +212,10 @@ def simplify(plan):
         if o[0] in ("@raise", "@evict"):
             p = copy.deepcopy(plan)
             p["ops"][i] = o[2]
+            yield p
+        if o[0] == "@loadfail":
+            p = copy.deepcopy(plan)
+            p["ops"][i] = o[3]
             yield p
 
 
@@ -499,6 +513,15 @@ def execute(plan, ctx):
                 fault = op0[1]
             if fault is not None:
                 hook.arm(1 + fault % 7, _raise)
+            if name == "@loadfail":
+                op = op0[3]
+                if conn is not None:
+                    from ..world import SimLoadError, SimPOSKeyError
+                    seqs.clear()
+                    conn.sweep("minimize")
+                    conn.load_fault_exc = SimPOSKeyError \
+                        if op0[2] == "poskey" else SimLoadError
+                    conn.load_fault = op0[1]
             if name == "@evict":
                 op = op0[2]
                 if conn is not None:
@@ -509,6 +532,10 @@ def execute(plan, ctx):
             out = _do(c, op, dom, kind, seqs, live)
             fired = hook.fired
             hook.disarm()
+            if name == "@loadfail" and conn is not None:
+                if conn.load_fault is None:
+                    ctx.fault("load-fail")
+                conn.load_fault = None
             if fired:
                 ctx.fault("cmp-raise" if name == "@raise"
                           else "evict-in-compare")
